@@ -9,8 +9,19 @@ def run(rep, tier, seed, args):
                 'comes next and the symbolic timer lateness / reply latency / event time, for enumerated rt_factor x time_resolution x grouping x number of simulators; '
                 'non-trivial = the run was started (and, in event runs, the event was injected in the future of the simulator)')
     rep.bounds = {'rt_factor': ['1/2', '1', '3'], 'time_resolution': ['1', '1/2'], 'simulators': '<= 2', 'until': '3 (event runs 4)', 'timer lateness': '<= rt_factor*time_resolution/4 where allowed',
-                  'external events': '<= 1 per run, event time an unbounded symbolic int, injection instant chosen by the solver',
-                  'outside': 'IEEE-754 rounding of the real-time arithmetic (the clock is a real number), past event times, more simulators'}
+                  'external events': '<= 1 per run (2-3 pending at once in the multi-event jobs), event time an unbounded symbolic int, injection instant chosen by the solver',
+                  'outside': 'IEEE-754 rounding of the real-time arithmetic (the clock is a real number; one QF_FP side lemma about ceil(rt_passed / rt_factor) is reported in side_results.fp_lemma), past event times, more simulators'}
     rep.assumptions = list(sysrun.STUBS) + ['scheduler.perf_counter and loop.time() read one virtual clock (a real, not a float) that only the oracle advances; the selector never blocks; the asyncio timer heap is the real one',
                                            '"answers instantly" is read as zero reply latency and exact timers', 'rt_factor and time_resolution are rational numerals so that rt_passed/rt_factor stays linear']
-    rep.add_jobs(common.run_jobs(jobs))
+    res = common.run_jobs(jobs)
+    rep.add_jobs(res)
+    # IEEE side lemma (vk.kernels.c17:fp_lemma): verdict per format and constant, reported apart from the real-clock runs
+    fp = {}
+    for r in res:
+        if r['id'].startswith('fp_lemma|') and not r['error']:
+            fp[r['id'][9:]] = {'verdict': ','.join(sorted(k[3:] for k in r['outcomes'])), 'seconds': r['wall_s']}
+    rep.side['fp_lemma'] = {'statement': 'finite a >= 0, f > 0, integer c: RNE(a / f) > c implies a > f * c exactly (so ceil(rt_passed / rt_factor) >= t implies '
+                                         'rt_passed > rt_factor * (t - 1) in IEEE arithmetic too)', 'engine': 'z3 5.1 QF_FP, exact product in a wider format',
+                            'results': fp}
+    if any(v['verdict'] == 'fp-lemma-sat' for v in fp.values()):
+        rep.notes.append('the IEEE side lemma has a counterexample (see side_results.fp_lemma); the pacing claim is stated for a real-valued clock')
